@@ -2,7 +2,8 @@
 import Batchie.Model.DriverLoop
 import Batchie.Model.TrainIO
 import Batchie.Model.ScoresIO
+import Batchie.Model.ScorePipelineIO
 
 open Batchie
 
-def main : IO Unit := DriverLoop.run [TrainIO.handle, ScoresIO.handle, ScreenIO.handle]
+def main : IO Unit := DriverLoop.run [TrainIO.handle, ScoresIO.handle, ScreenIO.handle, ScorePipelineIO.handle]
